@@ -6,9 +6,9 @@
    Route: validator = recogniser sp_pattern (FragSim.v, symbolic execution of the model on fragment inputs),
           sp_pattern <-> Pattern (FragGrammar.v, soundness by induction on the fuel, completeness by induction on the
           derivation with follow-set conditions).
-   NOT covered: everything outside the fragment (see Grammar.v header): decimal/hex/unicode/property/control-letter
-   escapes and legacy octal, classes, named groups, back-references, and their early errors; braced quantifiers whose
-   bounds are 2^63 or more (the implementation saturates there, the grammar's early error compares the exact values). *)
+   NOT covered: everything outside the fragment (see Grammar.v header): decimal escapes (back-references) and legacy octal
+   escapes, property escapes, classes, named groups and `\k`, and their early errors; braced quantifiers whose bounds are
+   2^63 or more (the implementation saturates there, the grammar's early error compares the exact values). *)
 From Coq Require Import List NArith Bool.
 From V Require Import Common.Str Regex.Reader Regex.Validator Regex.ValidatorReset Regex.ValidatorTotal
   Regex.Grammar Regex.FragParser Regex.FragGrammar Regex.FragSim.
@@ -129,6 +129,54 @@ Example ex_big_bounds : forall st u,
 Proof.
   intros st u. split; [split; [destruct u; reflexivity|destruct u; decide_both]|].
   split; [destruct u; reflexivity|apply decide_not_pattern; destruct u; reflexivity].
+Qed.
+
+(* character escapes.  In both modes:  \0  \cJ  \x41  \u0041  \uD83D\uDE00  \uD83D  \uDE00  \n  \/  and their concatenation
+   with quantifiers  \x41{2}\cJ*\uD83D\uDE00+\0? *)
+Definition ex_escapes_both : list (list N) :=
+  [[92;48]; [92;99;74]; [92;120;52;49]; [92;117;48;48;52;49]; [92;117;68;56;51;68;92;117;68;69;48;48]; [92;117;68;56;51;68];
+   [92;117;68;69;48;48]; [92;110]; [92;47];
+   [92;120;52;49;123;50;125; 92;99;74;42; 92;117;68;56;51;68;92;117;68;69;48;48;43; 92;48;63]].
+Example ex_escapes_valid : forall st u l, In l ex_escapes_both ->
+  Pattern u (visible_units l u) /\ verdict_of (validate_pattern st l u) = VOk.
+Proof.
+  intros st u l Hin. unfold ex_escapes_both in Hin. cbn [In] in Hin.
+  repeat (destruct Hin as [<-|Hin]; [destruct u; decide_both|]). contradiction.
+Qed.
+(* with u only:  \u{41}  \u{10FFFF}  \u{0000041}  (without u they are `u` quantified by a braced quantifier and are
+   Patterns too -- or, for \u{10FFFF}, a literal brace), so the u-only cases are the ones that are errors without u: none;
+   without u only (Annex B):  \c  \c1  \c*  \x  \x4  \xg  \u  \u004  \u{110000}  \u{}  \u{41  \k  \p  \-  \_  \a  a\c *)
+Definition ex_escapes_annexb : list (list N) :=
+  [[92;99]; [92;99;49]; [92;99;42]; [92;120]; [92;120;52]; [92;120;103]; [92;117]; [92;117;48;48;52];
+   [92;117;123;49;49;48;48;48;48;125]; [92;117;123;125]; [92;117;123;52;49]; [92;107]; [92;112]; [92;45]; [92;95]; [92;97]; [97;92;99]].
+Example ex_escapes_annexb_modes : forall st l, In l ex_escapes_annexb ->
+  (Pattern false l /\ verdict_of (validate_pattern st l false) = VOk) /\
+  (~ Pattern true l /\ (in_fragment true l = true -> verdict_of (validate_pattern st l true) <> VOk)).
+Proof.
+  intros st l Hin. unfold ex_escapes_annexb in Hin. cbn [In] in Hin.
+  repeat (destruct Hin as [<-|Hin];
+          [split; [decide_both|split; [apply decide_not_pattern; reflexivity|]];
+           intros Hf; intros Hok; apply (fragment_equiv st _ true Hf) in Hok; revert Hok; apply decide_not_pattern; reflexivity|]).
+  contradiction.
+Qed.
+(* code point escapes are Patterns with u:  \u{41}  \u{10FFFF}  \u{000000041}  \u{1F600}+ *)
+Definition ex_code_points : list (list N) :=
+  [[92;117;123;52;49;125]; [92;117;123;49;48;70;70;70;70;125]; [92;117;123;48;48;48;48;48;48;48;52;49;125];
+   [92;117;123;49;70;54;48;48;125;43]].
+Example ex_code_points_valid : forall st l, In l ex_code_points ->
+  Pattern true l /\ verdict_of (validate_pattern st l true) = VOk.
+Proof.
+  intros st l Hin. unfold ex_code_points in Hin. cbn [In] in Hin.
+  repeat (destruct Hin as [<-|Hin]; [decide_both|]). contradiction.
+Qed.
+(* not Patterns in either mode:  a lone backslash is outside the fragment, so:  \c**  \x41**  (\u0041  \0{2,1} *)
+Definition ex_escapes_invalid : list (list N) :=
+  [[92;99;42;42]; [92;120;52;49;42;42]; [40;92;117;48;48;52;49]; [92;48;123;50;44;49;125]].
+Example ex_escapes_invalid_both : forall st u l, In l ex_escapes_invalid ->
+  ~ Pattern u (visible_units l u) /\ verdict_of (validate_pattern st l u) <> VOk.
+Proof.
+  intros st u l Hin. unfold ex_escapes_invalid in Hin. cbn [In] in Hin.
+  repeat (destruct Hin as [<-|Hin]; [destruct u; decide_both|]). contradiction.
 Qed.
 
 Print Assumptions fragment_equiv.
